@@ -29,7 +29,7 @@ use std::time::Duration;
 pub static INFO: PropInfo = PropInfo {
     id: "C05",
     level: "exploration",
-    rule: "one evaluation = one run against a fresh secure server (plus a second server instance with the same key, protocol id and address for stale challenges): honest NetcodeClient handshakes and hand-driven handshakes, then the scripted attacker repertoire (tokens presented at server times floor(t) = expire-1 / expire / expire+1; every single-field corruption of the request: version, protocol id, expiry, nonce, sealed token head / middle / MAC, zeroed token, plus sampled single-bit flips; tokens sealed under a foreign key, for a foreign protocol id (public field and / or sealed AAD), listing only foreign hosts; a token replayed from a second address before and after the first address completed; responses from an unknown address and from an address half-open for another token; challenges cross-used between sessions the attacker owns, including two tokens with the same client id and different user data; challenges of the other server instance; corrupted challenges; observed honest datagrams replayed from other addresses; a response delivered after the server clock passed the token's expiry in one step or in sub-second steps of 1..999 ms), then 40..160 seeded random request / response / time-advance / disconnect operations over all tokens, addresses and collected challenges. Every ClientConnected is judged against the token ledger (who was minted what, which request came from where at which server time) and the challenge ledger (which blob this server issued in answer to a request of which client id; blobs are recovered by opening replies with the token's server-to-client key). Non-trivial = at least one honest connect and at least 10 refused attack attempts in the run; distinct = distinct fingerprints of the (operation, result kind) history.",
+    rule: "one evaluation = one run against a fresh secure server (plus a second server instance with the same key, protocol id and address for stale challenges): honest NetcodeClient handshakes and hand-driven handshakes, then the scripted attacker repertoire (tokens presented at server times floor(t) = expire-1 / expire / expire+1; every single-field corruption of the request: version, protocol id, expiry, nonce, sealed token head / middle / MAC, zeroed token, plus sampled single-bit flips; tokens sealed under a foreign key, for a foreign protocol id (public field and / or sealed AAD), listing only foreign hosts; a token replayed from a second address before and after the first address completed; responses from an unknown address and from an address half-open for another token; challenges cross-used between sessions the attacker owns, including two tokens with the same client id and different user data; challenges of the other server instance; corrupted challenges; observed honest datagrams replayed from other addresses; a response delivered after the server clock passed the token's expiry in one step or in sub-second steps of 1..999 ms), then 40..160 seeded random request / response / time-advance / disconnect operations over all tokens, addresses and collected challenges. Every ClientConnected is judged against the token ledger (who was minted what, which request came from where at which server time) and the challenge ledger (which blob this server issued in answer to a request of which client id; blobs are recovered by opening replies with the token's server-to-client key). One script presents a 2 s token while it is valid (sometimes completing and ending the session, sometimes repeating the request), lets it expire and then sends, from the same address, the same request with the header expiry rewritten into the future (alone, with the nonce changed, with sealed bytes changed while the trailing MAC stays) and the unchanged one, each followed by a response. Non-trivial = at least one honest connect and at least 10 refused attack attempts in the run; distinct = distinct fingerprints of the (operation, result kind) history.",
     assumptions: &[
         "AEAD unforgeability assumed; the attacker only uses keys of tokens it was legitimately issued and datagrams it observed",
         "fewer than 2048 distinct tokens per server instance (token-entry table never evicts)",
@@ -444,7 +444,7 @@ pub fn one_run(ctx: &Ctx, out: &mut Outcome, run_seed: u64) {
     };
 
     // the scripted repertoire in a seeded order
-    let mut scripts: Vec<u32> = (0..13).collect();
+    let mut scripts: Vec<u32> = (0..14).collect();
     r.shuffle(&mut scripts);
     scripts.insert(0, 100); // an honest connect first: the attacker observes it
     let mut observed: Option<(usize, SocketAddr, Vec<Vec<u8>>)> = None;
@@ -720,6 +720,56 @@ pub fn one_run(ctx: &Ctx, out: &mut Outcome, run_seed: u64) {
                             break;
                         }
                     }
+                }
+            }
+            13 => {
+                // a token the server has seen (and answered) while it was valid does not stay authenticated: after its
+                // expiry the same request with a rewritten header (expiry pushed into the future, nonce or sealed
+                // bytes changed while the trailing MAC stays) comes from the same address, followed by a response
+                let id = w.fresh_id();
+                let e = w.now_s() + 2;
+                let t = w.mint(&mut r, id, e, None, None, None, None);
+                let x = w.fresh_addr(&mut r);
+                let first = request(&mut w, ctx, out, 0, t, x, "short-lived-request-while-valid");
+                if first.is_some() && r.chance(1, 2) {
+                    // sometimes the genuine handshake completes and the session ends again
+                    if respond(&mut w, ctx, out, 0, x, t, first.as_ref().unwrap(), "short-lived-response-while-valid") {
+                        disconnect(&mut w, 0, id);
+                    }
+                }
+                if r.chance(1, 2) {
+                    // repeats while valid (what a waiting client does)
+                    let _ = request(&mut w, ctx, out, 0, t, x, "short-lived-request-repeated");
+                }
+                let ms = *r.pick(&[2000u64, 2500, 4000]);
+                w.srv[0].update(Duration::from_millis(ms));
+                w.srv[1].update(Duration::from_millis(ms));
+                w.hist.push(format!("srv0/1 update({} ms): the token is expired", ms));
+                let req = w.toks[t].req.clone();
+                let mut variants: Vec<(&str, Vec<u8>)> = Vec::new();
+                let mut v = req.clone();
+                let future = (w.now_s() + 1000).to_le_bytes();
+                v[22..30].copy_from_slice(&future);
+                variants.push(("expiry-rewritten", v.clone()));
+                v[30 + r.usize_below(24)] ^= 1 << r.below(8);
+                variants.push(("expiry-and-nonce-rewritten", v));
+                let mut v = req.clone();
+                v[22..30].copy_from_slice(&future);
+                v[54 + r.usize_below(1008)] ^= 1 << r.below(8);
+                variants.push(("expiry-rewritten-sealed-bytes-changed", v));
+                variants.push(("unchanged-after-expiry", req.clone()));
+                for (name, v) in variants {
+                    let res = deliver(&mut w, ctx, out, 0, x, &v, &format!("seen-while-valid-{name}"));
+                    let answered = res.outgoing().is_some();
+                    let own = res.outgoing().and_then(|(_, rep)| challenge_of(rep, w.protocol, &w.toks[t].s2c()));
+                    let mut conn = false;
+                    if let Some(b) = own.or(first.clone()) {
+                        conn = respond(&mut w, ctx, out, 0, x, t, &b, "response-after-forged-expiry");
+                    }
+                    if answered {
+                        out.count("forged_expiry_request_answered");
+                    }
+                    refused(&mut w, out, "forged_expiry_after_valid_sighting", conn);
                 }
             }
             11 => {
